@@ -1,0 +1,72 @@
+//go:build verif
+
+package lime
+
+import (
+	"net"
+	"sync/atomic"
+)
+
+// This file is only compiled with the "verif" build tag. It gives an external
+// verification harness access to the real transport and channel code without
+// sockets, and lets it pause goroutines at named points. Nothing here is part
+// of the library's API.
+
+// NewTCPTransportOverConn builds the real TCP transport over a caller-supplied
+// connection, in the client or in the server role.
+func NewTCPTransportOverConn(conn net.Conn, server bool, config *TCPConfig) Transport {
+	if config == nil {
+		config = &defaultTCPConfig
+	}
+	t := tcpTransport{
+		TCPConfig:  *config,
+		encryption: SessionEncryptionNone,
+		server:     server,
+	}
+	t.setConn(conn)
+	return &t
+}
+
+// VerifTCPReadBudget returns the bytes the TCP transport's limited reader may
+// still consume, or -1 when t is not a TCP transport.
+func VerifTCPReadBudget(t Transport) int64 {
+	if tcp, ok := t.(*tcpTransport); ok {
+		return tcp.limitedReader.N
+	}
+	return -1
+}
+
+// VerifPendingCommands returns the number of entries in the pending command table.
+func (c *channel) VerifPendingCommands() int {
+	c.processingCmdsMu.RLock()
+	defer c.processingCmdsMu.RUnlock()
+	return len(c.processingCmds)
+}
+
+// VerifTransport returns the transport the channel runs on.
+func (c *channel) VerifTransport() Transport {
+	return c.transport
+}
+
+// VerifTrySubmitCommandResult hands a response command to the response
+// matcher exactly as the receiver goroutine does.
+func (c *channel) VerifTrySubmitCommandResult(respCmd *ResponseCommand) bool {
+	return c.trySubmitCommandResult(respCmd)
+}
+
+var verifGate atomic.Value // of func(string)
+
+// VerifSetGate installs (or, with nil, removes) the function called at every
+// verifPoint.
+func VerifSetGate(f func(name string)) {
+	if f == nil {
+		f = func(string) {}
+	}
+	verifGate.Store(f)
+}
+
+func verifPoint(name string) {
+	if f, ok := verifGate.Load().(func(string)); ok && f != nil {
+		f(name)
+	}
+}
